@@ -216,10 +216,12 @@ def closed_form_job(job) -> List[Dict[str, Any]]:
     small-game counterpart of an interval rule)."""
     idx, tier, rule, ops = job
     keep = {"predict_win": "R12.1", "predict_rank": "R12.2", "predict_draw": "R12.3"}
-    out = [d for d in _job((idx, tier)) if any(d["rule"] == keep[o] for o in ops)]
-    for d in out:
-        d["rule"] = rule
-    return out
+    full = game._cached(_job, (idx, tier), Program().digest())
+    return [dict(d, rule=rule) for d in full if any(d["rule"] == keep[o] for o in ops)]
+
+
+def _own_job(job) -> List[Dict[str, Any]]:
+    return game._cached(_job, job, Program().digest())
 
 
 def _fractions_to_consts(t):
@@ -244,7 +246,7 @@ def run(prog: Program, rep: Report, tier: str = "quick") -> None:
     rep.trust("abstract interpreter osv/ai in explicit mode (osv/rules/game.py); osv/poly.py normal form; phi_major / phi_major_inverse as uninterpreted functions with Phi(z) + Phi(-z) = 1")
     rep.not_decided = ["agreement to 1e-9 absolute with a high-precision evaluation (floating-point rounding; accuracy of the CDF and its inverse)", "games of more than four teams or more than two players per team",
                        "predict_rank / predict_draw for two teams with more than one player each (the statement does not fix which pairwise form applies)"]
-    for lst in parallel_map(_job, [(i, tier) for i in range(len(roles))]):
+    for lst in parallel_map(_own_job, [(i, tier) for i in range(len(roles))]):
         for d in lst:
             rep.add(Instance(d["rule"], d["verdict"], d["module"], d["function"], d["construct"], d["line"], d.get("message", ""), d.get("detail", {})))
     n = len(roles)
